@@ -562,7 +562,9 @@ func runROne(t *testing.T, ch *vs.Choices, prop, tier string, render bool, p *rP
 					}
 					out.Violate("C20", "approved_without_the_user|"+how, "%s: remote content was accepted with '[assuming yes]' although --yes was not given", desc)
 				}
+				approvedNow := false
 				if (prompted > 0 && s.Answer == "y") || (assumedYes > 0 && s.Yes) {
+					approvedNow = true
 					if crashed {
 						// the process was killed after the user (or --yes) had accepted the new content but possibly
 						// before that acceptance was recorded: only durable state survives, so what is on record is
@@ -652,6 +654,13 @@ func runROne(t *testing.T, ch *vs.Choices, prop, tier string, render bool, p *rP
 				}
 				if code == 0 && ran != 0 && ran == approved {
 					cacheGood, cacheVersion = true, ran
+				}
+				if s.Dry && code == 0 && approvedNow && approved > 0 && fetched {
+					// a dry run executes nothing, but it loads the Taskfile like any other run: content that was
+					// downloaded and approved (--yes, or y at the prompt) during it is what the cache holds afterwards
+					cacheGood, cacheVersion = true, approved
+				} else if s.Dry && code == 0 && fetched && srv.version != cacheVersion {
+					cacheGood = false // (what the dry run left in the cache is not tracked)
 				}
 				_ = fetched
 			}
